@@ -603,6 +603,38 @@ def make_refuse(shapes):
     return body
 
 
+def make_sizes_owned(ns):
+    """fs.sample_sizes hands out an array the caller owns: editing it (the natural way to say "two fewer in population
+    1") neither changes the spectrum's own record nor what project() does with the edited request."""
+    ns = tuple(ns)
+
+    def body(env):
+        import dadi
+        _cache(env, False, max(ns))
+        ids = ['p%d' % a for a in range(len(ns))]
+        d = env.array('d', tuple(n + 1 for n in ns))
+        fs = dadi.Spectrum(d, mask_corners=False, pop_ids=ids)
+        orc = Oracle(env, d, ns)
+        nomask = np.zeros(d.shape, dtype=bool)
+        seen = {}
+        req = fs.sample_sizes
+        env.holds('sample_sizes', list(req) == list(ns))
+        req[0] -= 2
+        if len(ns) > 1:
+            req[-1] -= 1
+        ms = tuple(int(v) for v in req)
+        env.holds('the spectrum still reports its own sizes after the caller edited the returned array',
+                  list(fs.sample_sizes) == list(ns))
+        p = fs.project(req)
+        _check(env, 'edited-request/to' + ''.join(map(str, ms)), p, orc, nomask, ms, seen, pop_ids=ids)
+        # and the spectrum is still usable afterwards
+        p2 = fs.project(list(ms))
+        _check(env, 'afterwards/to' + ''.join(map(str, ms)), p2, orc, nomask, ms, seen, pop_ids=ids)
+        f2 = fs.fold()
+        env.holds('fold afterwards keeps the shape', tuple(f2.shape) == tuple(n + 1 for n in ns))
+    return body
+
+
 def make_weights(pairs, warm):
     """weight vectors of _cached_projection for every hits: equal to the exact hypergeometric rationals, zero
     outside the window, summing to 1; proj_from < proj_to gives zeros; repeated (cached) call returns the same."""
@@ -793,6 +825,8 @@ def units(tier, seed):
         for m in (_bigm(n)[:-1] if th else [1, n // 2, n - 1]):
             add('weights-big-n%d-m%d' % (n, m), make_weights([(n, m)], False), dict(n=n, m=m, hits='0..n'),
                 3 * (n + 1))
+    for ns_ in ((5,), (4, 3)) + (((6, 2, 3),) if th else ()):
+        add('sizes-owned-%s' % 'x'.join(map(str, ns_)), make_sizes_owned(ns_), dict(ns=list(ns_)), 4)
     # large sizes requested one after the other in ONE process (memo keys of neighbouring sizes must not collide)
     for tag, pairs in ((('150-151', [(150, 10), (151, 10), (50, 11), (51, 11)]),
                         ('120-121-199-200', [(121, 7), (120, 7), (200, 3), (199, 3), (21, 8), (20, 8)])) +
